@@ -18,6 +18,7 @@ import (
 	"github.com/google/certificate-transparency-go/trillian/ctfe/cache/lru"
 	"github.com/google/certificate-transparency-go/trillian/ctfe/cache/noop"
 	"github.com/google/trillian"
+	"google.golang.org/protobuf/proto"
 
 	"verifharness/ctfeenv"
 	"verifharness/pki"
@@ -574,6 +575,71 @@ func TestChainStoreConcurrent(t *testing.T) {
 		rep.Eval(fmt.Sprintf("round-%d", r))
 	}
 	rep.Replayed = rounds
+	if err := rep.Write(); err != nil {
+		t.Fatal(err)
+	}
+}
+
+// TestChainStoreBackendFaults: with external chain storage the read endpoints post-process the
+// backend's reply (FixLogLeaf) before the handler's own sanity checks; absent parts of a reply must
+// still give an error status, never a crash (C08 matrix rows for the external-storage mode, C14).
+func TestChainStoreBackendFaults(t *testing.T) {
+	rep := vh.NewReport("cctfe-chainstore-backendfaults", "external-storage instance: get-entry-and-proof / get-entries with backend replies lacking the leaf, the proof or the root; non-trivial = each fault class executed")
+	tw, err := newTwin(t.TempDir(), 2, 77, 0)
+	if err != nil {
+		t.Fatal(err)
+	}
+	defer tw.gate.ReleaseAll()
+	for _, id := range []string{"x1", "p1", "x3"} {
+		s := tw.x.Subs[id]
+		if c, _, b, e := tw.x.Env.AddChain(s.Chain, s.Pre); e != nil || c != 200 {
+			t.Fatalf("submit: %d %v %s", c, e, b)
+		}
+	}
+	tw.x.Env.Backend.Sequence(3, tw.x.Nanos(1, 0), nil)
+	faults := map[string]func(m proto.Message){
+		"nilLeaf":   func(m proto.Message) { m.(*trillian.GetEntryAndProofResponse).Leaf = nil },
+		"nilProof":  func(m proto.Message) { m.(*trillian.GetEntryAndProofResponse).Proof = nil },
+		"rootOnly":  func(m proto.Message) { r := m.(*trillian.GetEntryAndProofResponse); r.Leaf, r.Proof = nil, nil },
+		"emptyLeaf": func(m proto.Message) { m.(*trillian.GetEntryAndProofResponse).Leaf = &trillian.LogLeaf{} },
+	}
+	for name, f := range faults {
+		tw.x.Env.Backend.Intercept = func(seq int, method string, req, rsp proto.Message, err error) (proto.Message, error) {
+			if method == "GetEntryAndProof" && rsp != nil {
+				f(rsp)
+			}
+			return rsp, err
+		}
+		code, body, _, err := tw.x.Env.Do("GET", ct.GetEntryAndProofPath, q("leaf_index", 1, "tree_size", 3), nil)
+		if err != nil {
+			rep.Violate("chainstore:backendfault:"+name+":panic", "get-entry-and-proof with external chain storage: "+err.Error(), nil)
+		} else if code == 200 {
+			rep.Violate("chainstore:backendfault:"+name+":200", fmt.Sprintf("get-entry-and-proof answered 200 to a backend reply with %s: %s", name, body), nil)
+		}
+		rep.Eval("entry-and-proof/" + name)
+	}
+	for name, f := range map[string]func(r *trillian.GetLeavesByRangeResponse){
+		"emptyLeafStruct": func(r *trillian.GetLeavesByRangeResponse) {
+			r.Leaves[0] = &trillian.LogLeaf{LeafIndex: r.Leaves[0].LeafIndex}
+		},
+		"noExtraData": func(r *trillian.GetLeavesByRangeResponse) { r.Leaves[0].ExtraData = nil },
+	} {
+		tw.x.Env.Backend.Intercept = func(seq int, method string, req, rsp proto.Message, err error) (proto.Message, error) {
+			if method == "GetLeavesByRange" && rsp != nil {
+				f(rsp.(*trillian.GetLeavesByRangeResponse))
+			}
+			return rsp, err
+		}
+		code, body, _, err := tw.x.Env.Do("GET", ct.GetEntriesPath, q("start", 0, "end", 1), nil)
+		if err != nil {
+			rep.Violate("chainstore:backendfault:"+name+":panic", "get-entries with external chain storage: "+err.Error(), nil)
+		} else if code == 200 {
+			rep.Violate("chainstore:backendfault:"+name+":200", fmt.Sprintf("get-entries answered 200 to a backend leaf with %s: %.80s", name, body), nil)
+		}
+		rep.Eval("entries/" + name)
+	}
+	tw.x.Env.Backend.Intercept = nil
+	rep.Replayed = 6
 	if err := rep.Write(); err != nil {
 		t.Fatal(err)
 	}
